@@ -206,7 +206,8 @@ A = {
     # +-0.0 equality
     "f8": {
         "quick": [None, "1.0", "2.0", "-inf", "-0.0", "0.0"],
-        "thorough": [None, "1.0", "2.0", "-inf", "-0.0", "0.0", "inf", "9007199254740992.0", "9007199254740994.0", "-1.152921504606847e+18"],
+        "thorough": [None, "1.0", "2.0", "-inf", "-0.0", "0.0", "inf", "9007199254740992.0", "9007199254740994.0", "-1.152921504606847e+18",
+                     "0.3", "0.30000000000000004"],
         "key": [None, "1.0", "2.0"],
     },
     # -1 and -2 have equal Python hashes (as have 0 and 2**61-1): keys must be compared, not their hashes
